@@ -139,6 +139,26 @@ class Scenario:
         self.cfg = cfg
         return {}
 
+    def set_cfg_with_events(self, cfg):
+        """The configuration change AND the FriendListChanged / BlockListChanged events the user manager's job derives from it,
+        delivered at once (i.e. within the same transfer-management interval as whatever was requested just before)."""
+        from aioslsk.events import FriendListChangedEvent, BlockListChangedEvent
+        from aioslsk.user.model import BlockingFlag
+        old = self.cfg
+        self.set_cfg(cfg)
+        bus = self.w.client.events
+        a, b = set(old['friends']), set(cfg['friends'])
+        if a != b:
+            bus.emit_sync(FriendListChangedEvent(added=b - a, removed=a - b))
+        ch = {}
+        for u in set(old['blocked']) | set(cfg['blocked']):
+            o, n = old['blocked'].get(u), cfg['blocked'].get(u)
+            if o != n:
+                ch[u] = (BlockingFlag[o] if o else BlockingFlag.NONE, BlockingFlag[n] if n else BlockingFlag.NONE)
+        if ch:
+            bus.emit_sync(BlockListChangedEvent(changes=ch))
+        return {}
+
     def transfers_obs(self):
         return [(t.username, t.remote_path, t.state.VALUE.name, t.abort_reason, t.fail_reason) for t in self.tm.transfers if t.is_upload()]
 
@@ -297,6 +317,8 @@ def run_scenario(scn):
                 out.append(sc.share(e[1]))
             elif k == 'cfg':
                 out.append(sc.set_cfg(e[1]))
+            elif k == 'cfg_evt':
+                out.append(sc.set_cfg_with_events(e[1]))
             elif k == 'set':
                 out.append(sc.force(e[1], e[2], e[3], live=len(e) > 4 and e[4] == 'live'))
             elif k == 'remove_async':
@@ -364,7 +386,7 @@ def monitor(scn, obs):
             elif st[0] == 'update' and tuple(st[1]) in intent:
                 m0, u0 = intent[tuple(st[1])]
                 intent[tuple(st[1])] = (st[2] or m0, list(st[3]) if st[3] is not None else u0)
-        if k == 'cfg':
+        if k in ('cfg', 'cfg_evt'):
             cfg = e[1]
         elif k == 'search':
             user = e[1]
@@ -571,6 +593,25 @@ def gen_scenario(rng):
             events.append(['cycle_nr'])
             ntr = 2
             tusers.update(us)
+    if not ntr and rng.random() < 0.25:
+        # directed: a share change and, before the management cycle it requested has run, a friend / block list change that
+        # concerns a DIFFERENT user
+        f = rng.choice(fl)
+        d = next((x for x in sorted(shared, key=len, reverse=True) if f[:len(x)] == x and len(f) > len(x)), None)
+        if d is not None:
+            ua, ub, uc = rng.sample(USERS, 3)
+            base = {'friends': [ub], 'blocked': {}, 'phrases': [], 'max': 100}
+            events.append(['cfg', base])
+            events.append(['share', ['update', d, 'everyone', []]])
+            events.append(['queue', ua, ['item', f, 'exact']])
+            events.append(['queue', ub, ['item', f, 'exact']])
+            events.append(['cycle'])
+            events.append(['share_nc', ['update', d, 'friends', []]] if rng.random() < 0.6 else ['share_nc', ['remove', d]])
+            other = rng.choice([dict(base, friends=[ub, uc]), dict(base, blocked={uc: 'UPLOADS'}), dict(base, friends=[])])
+            events.append(['cfg_evt', other])
+            events.append(['cycle_nr'])
+            ntr = 2
+            tusers.update([ua, ub])
     if deep and not ntr and rng.random() < 0.35:
         # directed: a nested directory with other rules is added (or the parent removed) without a rescan
         f = rng.choice(deep)
@@ -732,7 +773,7 @@ def coq_scenario(nm, scn, obs, name):
                     disks[key] = dn
                     pre.append(f'Definition {dn} : list file := [' + ';'.join(f'({nm.p(c)},{m})' for c, m in ob['disk']) + '].')
                 rows.append(f'EShare (Scan {nm.p(st[1])} {disks[key]})')
-        elif k == 'cfg':
+        elif k in ('cfg', 'cfg_evt'):
             rows.append(f'ECfg {coq_cfg(nm, e[1])}')
         elif k == 'set':
             rows.append(f'ESet {coq_transfers(nm, ob["transfers"])}')
